@@ -28,7 +28,29 @@ pub struct ChunkedChars<R: Read> {
     /// Remember IO error, if any, here to report it later. This must be shared,
     /// as otherwise we cannot later reach with Saphyr parser API
     pub(crate) err: Rc<RefCell<Option<Error>>>,
+    /// Position of the next character (characters read, line from 1, column from 0), kept to
+    /// say where a NUL character was found.
+    chars: usize,
+    line: usize,
+    col: usize,
+    after_cr: bool,
 }
+
+/// Payload of the I/O error recorded for a NUL character in reader input: where it is.
+#[derive(Debug)]
+pub(crate) struct NulInInput {
+    pub(crate) chars: usize,
+    pub(crate) line: usize,
+    pub(crate) col: usize,
+}
+
+impl std::fmt::Display for NulInInput {
+    fn fmt(&self, f: &mut std::fmt::Formatter<'_>) -> std::fmt::Result {
+        f.write_str("NUL character in the input")
+    }
+}
+
+impl std::error::Error for NulInInput {}
 
 impl<R: Read> ChunkedChars<R> {
     pub fn new(reader: R, max_bytes: Option<usize>, err: Rc<RefCell<Option<Error>>>) -> Self {
@@ -37,7 +59,25 @@ impl<R: Read> ChunkedChars<R> {
             total_bytes: 0,
             reader,
             err,
+            chars: 0,
+            line: 1,
+            col: 0,
+            after_cr: false,
         }
+    }
+
+    /// Advance the position over `c`. Breaks are LF, CRLF or a lone CR.
+    fn advance(&mut self, c: char) {
+        self.chars += 1;
+        match c {
+            '\n' if self.after_cr => {}
+            '\n' | '\r' => {
+                self.line += 1;
+                self.col = 0;
+            }
+            _ => self.col += 1,
+        }
+        self.after_cr = c == '\r';
     }
 }
 
@@ -120,9 +160,28 @@ impl<R: Read> Iterator for ChunkedChars<R> {
             self.total_bytes = self.total_bytes.saturating_add(add);
         }
 
+        // The parser takes NUL for the end of the input: what follows would be dropped silently.
+        if first == 0 {
+            self.err.replace(Some(io::Error::new(
+                io::ErrorKind::InvalidData,
+                NulInInput {
+                    chars: self.chars,
+                    line: self.line,
+                    col: self.col,
+                },
+            )));
+            return None;
+        }
+
         // Validate assembled bytes as UTF-8 and extract the char
         match std::str::from_utf8(&buf[..needed]) {
-            Ok(s) => s.chars().next(),
+            Ok(s) => {
+                let c = s.chars().next();
+                if let Some(c) = c {
+                    self.advance(c);
+                }
+                c
+            }
             Err(e) => {
                 self.err
                     .replace(Some(io::Error::new(io::ErrorKind::InvalidData, e)));
